@@ -19,6 +19,11 @@ def main(tier, t0):
     for opt in ({"examples_mode": "all", "detect_minimal_iri": True}, {"instances_cap": 1}):
         tasks += stage_check.tasks_for("C04", tier, scenario="pair:e2e:" + json.dumps(opt, sort_keys=True), sizes=lambda t, k: [k + 1] if t == "quick" else [k, k + 1, k + 2],
                                        structure_filter=lambda st: any(t in st["tags"] for t in ("iri+bnode", "mixed-typed-values")) or st["name"] in ("ref-vs-iri", "typed-bnode-values", "bnode-instances", "own-links", "incoming-cards", "multi-typed", "sm-chain", "sm-sink"))
+    # every supported way of handing the graph over (files, compressed files, TSV, rdflib syntaxes, rdflib Graph): the real pipeline of each witness must not raise
+    tasks += stage_check.tasks_for("C04", tier, scenario="delivery", sizes=lambda t, k: [k + 1],
+                                   structure_filter=lambda st: st["name"] in ("two-datatypes", "typed-bnode-values", "bnode-instances", "custom-datatype", "incoming-fresh"),
+                                   cfg={"fixed_flags": {"allow_opt_cardinality": True, "disable_exact_cardinality": False, "discard_useless_constraints_with_positive_closure": True,
+                                                        "all_instances_are_compliant_mode": True, "keep_less_specific": True}})
     fnt = [f for f in load_findings("C04") if f.get("family") == "nt"]
     fttl = [f for f in load_findings("C04") if f.get("family") == "ttl"]
     nts = [x for x in nt.skeletons(tier) if x[0].startswith(("nodes/", "tail/", "lit/FF/", "lit/FFF/", "lit/F/", "lit/empty/"))]
